@@ -257,18 +257,24 @@ def rule_d(ctx: Ctx) -> None:
                 ctx.ok(f"{f.key}|{norm(st)}", {"stmt": norm(st), "where": "try body"})
             else:
                 ctx.fail(m, n, f.key, st, "a hash is cached on input nodes outside the try whose finally evicts it")
-    # finally: if not copy: for node in chain(source_nodes, target_nodes): node._hash = None
+    # finally: if not copy: for node in <nodes of both inputs that were unhashed before>: node._hash = None
     fin_ok = False
     for st in tr.finalbody:
         if isinstance(st, ast.If) and norm(st.test) == "not copy":
             for lp in st.body:
-                if isinstance(lp, ast.For) and "source_nodes" in norm(lp.iter) and "target_nodes" in norm(lp.iter):
-                    if any(norm(x) == f"{norm(lp.target)}._hash = None" for x in lp.body):
+                if isinstance(lp, ast.For) and any(norm(x) == f"{norm(lp.target)}._hash = None" for x in lp.body):
+                    it = lp.iter
+                    covers = "source_nodes" in norm(it) and "target_nodes" in norm(it)
+                    if isinstance(it, ast.Name):
+                        # a local collection: it must be built from the node tuples of *both* inputs
+                        defs = [x.value for x in walk_no_nested(f.node) if isinstance(x, ast.Assign) and len(x.targets) == 1 and norm(x.targets[0]) == it.id]
+                        covers = bool(defs) and all("source_nodes" in norm(d, 400) and "target_nodes" in norm(d, 400) for d in defs)
+                    if covers:
                         fin_ok = True
     if fin_ok:
-        ctx.ok(f"{f.key}|finally evicts hashes of both inputs when not copied")
+        ctx.ok(f"{f.key}|finally evicts the hashes it cached on both inputs when not copied")
     else:
-        ctx.fail(m, tr, f.key, "finally: if not copy: for node in chain(source_nodes, target_nodes): node._hash = None",
+        ctx.fail(m, tr, f.key, "finally: if not copy: for node in <both inputs' nodes>: node._hash = None",
                  "diff() no longer evicts, in finally, the hashes it cached on both (uncopied) input trees")
     # the uncopied branch caches over the same node tuples that finally resets
     # distiller + helpers: no mutators on nodes
